@@ -195,6 +195,16 @@ def run_case(ctx, case, rng):
   spec = models.model_for_case(rng, multi_sub_p=0.0) if n_sub == 1 else models.rand_model(rng, n_sub=n_sub)
   n = int(rng.integers(1, 5))
   datasets = {s['key']: gdata.dataset(rng, s, n) for s in spec.signatures}
+  if case % 16 == 9:
+    # directed: test samples of DIFFERENT shapes (variable sequence length); the per-tensor value is still the plain mean of
+    # the per-sample metric
+    spec = models.t_sequence(rng)
+    n = int(rng.integers(2, 5))
+    sig0 = spec.signatures[0]
+    arg0 = sig0['inputs'][0][0]
+    datasets = {sig0['key']: [{arg0: rng.normal(size=(1, int(rng.choice([1, 2, 3, 7])), 8)).astype(np.float32)} for _ in range(n)]}
+    datasets[sig0['key']][0] = {arg0: rng.normal(size=(1, 2, 8)).astype(np.float32)}
+    ctx.count('variable_shape_test_sets')
   ok, _ = common.admit(spec, datasets)
   if not ok:
     return {'outcome': 'skipped', 'reason': 'generator_reject'}
